@@ -36,7 +36,7 @@ def sqd(a, b):
 
 
 class Shadow:
-    __slots__ = ("vertices", "reverse", "n", "live", "bins")
+    __slots__ = ("vertices", "reverse", "n", "live", "bins", "note")
 
     def __init__(self, vertices, reverse, bins=None):
         self.bins = bins if isinstance(bins, int) else None
@@ -44,6 +44,7 @@ class Shadow:
         self.reverse = bool(reverse)
         self.n = len(self.vertices)
         self.live = set(range(self.n))
+        self.note = None
 
     def ends(self):
         """(end id, point) for every live end."""
@@ -160,7 +161,9 @@ class Monitor:
         ctx.count("monitor:nearest evaluated")
         q = (vertex_in[0], vertex_in[1])
         ends = list(sh.ends())
-        witness = {"fn": "nearest", "vertices": sh.vertices, "reverse": sh.reverse,
+        witness = {"fn": "nearest", "vertices": sh.vertices if sh.n <= 2000 else
+                   {"count": sh.n, "first": sh.vertices[:5], "last": sh.vertices[-30:], "note": sh.note},
+                   "reverse": sh.reverse,
                    "bins": getattr(self_, "bins_per_side", None),
                    "removed": sorted(set(range(sh.n)) - sh.live), "query": list(q), "got": result}
         if not ends:
@@ -558,11 +561,44 @@ def packed_cell_history(ctx, mon, rng):
     mon.shadows.clear()
 
 
+def huge_index(ctx, mon):
+    """More than 2^20 end identifiers in one index (half a million paths with reversal enabled - a dense
+    stipple or hatch fill): identifiers packed into a fixed number of bits, 16/20/24-bit counters and
+    'more than a million' thresholds live here.  Queries sit exactly on ends with the highest identifiers.
+    Thorough tier, first shard only (about half a minute and ~1 GB)."""
+    from plotink import spatial_grid
+    n = 524_300
+    paths = [[[float(i % 1000), float(i // 1000)], [float(i % 1000) + 0.5, float(i // 1000) + 0.25]]
+             for i in range(n)]
+    for k in range(24):
+        paths[n - 1 - k][1] = [2000.0 + 10 * k, 300.0 + k]
+    try:
+        idx = spatial_grid.Index(paths, 8, True)
+    except Exception as exc:
+        ctx.violation("exception in construction", {"fn": "Index", "vertices": {"count": n}, "bins": 8,
+                                                    "reverse": True, "exception": repr(exc)})
+        return
+    sh = mon.shadows.get(id(idx))
+    if sh is not None:
+        sh.note = "paths i -> [[i%1000, i//1000], [i%1000+0.5, i//1000+0.25]]; the last 24 far ends at (2000+10k, 300+k)"
+    for k in (0, 7, 23):
+        ctx.case(["index with more than 2^20 end identifiers"], ("huge", k))
+        try:
+            idx.nearest(list(paths[n - 1 - k][1]))
+        except Exception as exc:
+            ctx.violation("exception in nearest", {"fn": "nearest", "vertices": {"count": n}, "bins": 8,
+                                                   "reverse": True, "exception": repr(exc)})
+    mon.shadows.pop(id(idx), None)
+
+
 def run(ctx):
     from .. import wtests
     wtests.run(ctx)
     mon = install(ctx)
     rng = ctx.rng
+    if ctx.tier == "thorough" and ctx.shard == 0 and not getattr(ctx, "variant", None):
+        huge_index(ctx, mon)
+        ctx.need("index with more than 2^20 end identifiers", 3)
     for _ in range(ctx.budget(400, 6_000)):
         packed_cell_history(ctx, mon, rng)
     for _ in range(ctx.budget(600, 8_000)):
